@@ -530,7 +530,7 @@ func (cfg *Config) varInd(vr Variable, idx syntax.ArithmExpr) (string, bool, err
 			}
 			return strings.Join(strs, " "), vr.IsSet(), nil
 		}
-		val, err := Literal(cfg, idx.(*syntax.Word))
+		val, err := cfg.assocKey(idx)
 		if err != nil {
 			return "", false, err
 		}
@@ -538,6 +538,22 @@ func (cfg *Config) varInd(vr Variable, idx syntax.ArithmExpr) (string, bool, err
 		return str, ok, nil
 	}
 	return "", false, nil
+}
+
+// assocKey expands the subscript of an associative array to its key. The
+// parser hands over subscripts such as -1 as arithmetic expressions rather
+// than words; for an associative array they are just text.
+func (cfg *Config) assocKey(idx syntax.ArithmExpr) (string, error) {
+	switch idx := idx.(type) {
+	case *syntax.Word:
+		return Literal(cfg, idx)
+	case *syntax.UnaryArithm:
+		if !idx.Post && (idx.Op == syntax.Minus || idx.Op == syntax.Plus) {
+			key, err := cfg.assocKey(idx.X)
+			return idx.Op.String() + key, err
+		}
+	}
+	return "", fmt.Errorf("unsupported associative array subscript")
 }
 
 // assignElem assigns a variable via an expansion like ${a=val} or
@@ -564,7 +580,7 @@ func (cfg *Config) assignElem(name string, vr Variable, idx syntax.ArithmExpr, v
 		key := "0"
 		if idx != nil {
 			var err error
-			if key, err = Literal(cfg, idx.(*syntax.Word)); err != nil {
+			if key, err = cfg.assocKey(idx); err != nil {
 				return err
 			}
 		}
